@@ -302,7 +302,9 @@ class Gen:
             refs["begins"] = 0
         if op == "shift":
             m["arg"] = {"form": "const", "e": ["c", rng.choice([0, 1, 2, 3, 5])]}
-            if pos_lb >= 2 and rng.random() < self.p["p_backward_at"] * 0.6:
+            cur = self._decl_fields[-1] if self._decl_fields else []
+            if pos_lb >= 2 and not any("move" in g or "lost_move" in g for g in cur) and rng.random() < self.p["p_backward_at"] * 0.6:
+                # (pos_lb is a lower bound of the cursor only while no earlier field of the declaration was positioned)
                 # a second view of bytes already consumed (docs/11: Data(4).shift(-4 - 1)); never before the packet's start
                 m["arg"] = {"form": "const", "e": ["c", -rng.randint(1, min(pos_lb, 4))]}
             if ints and rng.random() < 0.3:
